@@ -6,6 +6,7 @@ RULE = ("seeded random programs in which frames at several levels carry 0-3 plai
         "ancestor and descendant frames), auxiliaries with their own transitions and `done` verbs in several contexts, and "
         "`if aux .. / any / all [in frame ..] is done` transitions; a feature set with plain auxiliaries on frames suspended by conditional auxiliaries; plans with several houses in which a clone carries the `aux helper` of its own house; distinct = distinct program text; non-trivial = at least 3 aux "
         "activations and one done-condition evaluated")
+RULE = __import__("vf.core", fromlist=["rule_add"]).rule_add(RULE, 'also `done` verbs that list several taskers and named done conditions that name another frame of the framer')
 META = {"engine": "A floscript", "technique": "trace monitor of aux lifetime (enter/run/recur/exit positions) + done-flag oracle + "
                                                "differential check against the reference interpreter",
         "level_text": "For every entry of a frame its auxes' first outlines must be entered right after the frame's own enter actions; "
